@@ -703,7 +703,11 @@ pub fn run(case: &Case, ctx: &mut Ctx) -> CaseOutcome {
                         }
                     }
                     ModeS::Clean => {
-                        for g in &products {
+                        // outputs only: clean mode deliberately ignores every error of a temp
+                        // directive, a failed removal included (pp/mod.rs execute_directive), and
+                        // the property's list of failures does not name removals of temp files
+                        let outs: BTreeSet<String> = req.iter().map(|i| a.sources[*i].out.clone()).collect();
+                        for g in &outs {
                             if matches!(r.after.get(g), Some(Node::File { .. })) {
                                 fail = Some(("false-success", format!("{at}: clean exits 0 but left {g}")));
                                 break;
